@@ -9,6 +9,7 @@ func main() {
 		vlib.Group{Name: "spd", Gen: genSPD},
 		vlib.Group{Name: "linesearch", Gen: genLinesearch},
 		vlib.Group{Name: "sched", Gen: genSched},
+		vlib.Group{Name: "reuse", Gen: genReuse},
 		vlib.Group{Name: "lp-std", Gen: genLPStd},
 		vlib.Group{Name: "lp-family", Gen: genLPFamily},
 		vlib.Group{Name: "lp-convert", Gen: genLPConvert},
